@@ -216,6 +216,8 @@ define(void)
 
 	m = xmalloc(sizeof(*m));
 	m->name = tokencheck(&tok, TIDENT, "after #define");
+	if (strcmp(m->name, "__VA_ARGS__") == 0)
+		error(&tok.loc, "__VA_ARGS__ cannot be defined as a macro");
 	m->hide = false;
 	t = arrayadd(&repl, sizeof(*t));
 	scan(t);
@@ -237,6 +239,8 @@ define(void)
 				p->flags |= PARAMVAR;
 			} else {
 				p->name = tokencheck(&tok, TIDENT, "of macro parameter name or '...'");
+				if (strcmp(p->name, "__VA_ARGS__") == 0)
+					error(&tok.loc, "__VA_ARGS__ cannot be used as a macro parameter name");
 				for (q = params.val; q != p; ++q) {
 					if (strcmp(q->name, p->name) == 0)
 						error(&tok.loc, "duplicate macro parameter '%s'", p->name);
